@@ -67,6 +67,31 @@ def template_channels(T, pos, shanks, ncl):
     return [int(c) for c in near if shanks[c] == shanks[peak]], peak
 
 
+def reference_cluster_waveforms(T, st, sc, pos, shanks, ncl):
+    """{cluster: (dominant channels D, expected waveform on D)} for clusters with >= 2 origin
+    templates and a unique dominant template (spike-count-weighted mean of the channel-restricted
+    origin templates)."""
+    out = {}
+    for c in sorted(set(int(x) for x in sc)):
+        o = sorted(set(int(st[i]) for i in range(len(sc)) if sc[i] == c))
+        if len(o) < 2:
+            continue
+        counts = {t: sum(1 for i in range(len(sc)) if sc[i] == c and st[i] == t) for t in o}
+        top = max(counts.values())
+        doms = [t for t in o if counts[t] == top]
+        if len(doms) != 1:
+            continue
+        chans = {t: template_channels(T[t], pos, shanks, ncl)[0] for t in o}
+        D = chans[doms[0]]
+        exp = np.zeros((T.shape[1], len(D)))
+        for t in o:
+            for j, ch in enumerate(D):
+                if ch in chans[t]:
+                    exp[:, j] += counts[t] * T[t][:, ch]
+        out[c] = (D, exp / float(sum(counts.values())))
+    return out
+
+
 def check_model(base, sc, acc, hist, order):
     """Generate the dataset with cluster vector sc, load it, compare with the definitions."""
     from phylib.io.model import load_model
